@@ -183,6 +183,7 @@ QUERY_CANON = None  # set by rules_kernel: query string -> canonical selection t
 
 NEG_INF = ("const", "-inf")
 POS_INF = ("const", "inf")
+NAN = ("const", "nan")
 
 
 def _truthiness(c):
@@ -580,7 +581,16 @@ def norm(t, _arith=True):  # noqa: C901, PLR0911, PLR0912
                "undef", "unknown", "modvar"):
         if t == ("glob", "jax.numpy.inf") or t == ("glob", "numpy.inf") or t == ("glob", "math.inf"):
             return POS_INF
+        if t in (("glob", "jax.numpy.nan"), ("glob", "numpy.nan"), ("glob", "math.nan")):
+            return NAN
         return t
+    if tag == "call" and t[1] == ("glob", "builtins.float") and len(t[2]) == 1 and not t[3] and t[2][0][0] == "const" \
+            and isinstance(t[2][0][1], str) and t[2][0][1].strip().lower() in ("nan", "inf", "+inf", "-inf", "infinity", "-infinity"):
+        v = t[2][0][1].strip().lower()
+        return NAN if v == "nan" else NEG_INF if v.startswith("-") else POS_INF
+    if tag == "attr" and t[2] == "T" and len(t) == 3:
+        # x.T is transpose(x) with the default axes
+        return ("op", "transpose", (("a", norm(t[1])),), (), ())
     if tag == "binop" and t[1] == "*" and _is_seq_display(t):
         # [x] * n, (x,) * n: repetition of a display
         seq, n = (t[2], t[3]) if _is_seq_display(t[2]) else (t[3], t[2])
